@@ -17,9 +17,13 @@ import (
 	"encoding/binary"
 	"flag"
 	"fmt"
+	"io"
+	"net"
+	"reflect"
 	"strings"
 	"sync"
 	"time"
+	"unsafe"
 
 	"github.com/gopcua/opcua/ua"
 	"github.com/gopcua/opcua/uacp"
@@ -47,6 +51,9 @@ type scenario struct {
 	// to a server with other parameters; connections are independent, so the trace of this
 	// connection must not change.
 	Decoy bool `json:"decoy,omitempty"`
+	// SDecoy: the server-side twin: after this connection's handshake another client with the
+	// smallest buffers (8192/8192) connects to the SAME uacp.Listener.
+	SDecoy bool `json:"sdecoy,omitempty"`
 }
 
 type event map[string]any
@@ -85,6 +92,52 @@ func response(handle uint32, pad int) *ua.ReadResponse {
 		ResponseHeader: chanpair.RespHeader(handle, ua.StatusOK),
 		Results:        []*ua.DataValue{{EncodingMask: ua.DataValueValue, Value: ua.MustVariant(make([]byte, pad))}},
 	}
+}
+
+// serverDecoy lets a second client (Hello 8192/8192) complete the Hello/Acknowledge exchange with
+// the listener of the pair (Pair.ln is not exported; chanpair is a shared file).
+func serverDecoy(p *chanpair.Pair) (func(), error) {
+	f := reflect.ValueOf(p).Elem().FieldByName("ln")
+	ln, _ := reflect.NewAt(f.Type(), unsafe.Pointer(f.UnsafeAddr())).Elem().Interface().(*uacp.Listener)
+	if ln == nil {
+		return nil, fmt.Errorf("no listener in the pair")
+	}
+	ctx, cancel := context.WithTimeout(context.Background(), 10*time.Second)
+	type res struct {
+		c *uacp.Conn
+		e error
+	}
+	rc := make(chan res, 1)
+	go func() { c, e := ln.Accept(ctx); rc <- res{c, e} }()
+	cl, err := net.Dial("tcp", ln.Addr().String())
+	if err != nil {
+		cancel()
+		return nil, err
+	}
+	hel := &uacp.Hello{ReceiveBufSize: 8192, SendBufSize: 8192, EndpointURL: ln.Endpoint()}
+	body, _ := hel.Encode()
+	h := make([]byte, 8)
+	copy(h, "HELF")
+	binary.LittleEndian.PutUint32(h[4:], uint32(8+len(body)))
+	cl.SetDeadline(time.Now().Add(10 * time.Second))
+	if _, err := cl.Write(append(h, body...)); err != nil {
+		cl.Close()
+		cancel()
+		return nil, err
+	}
+	ackb := make([]byte, 28)
+	if _, err := io.ReadFull(cl, ackb); err != nil {
+		cl.Close()
+		cancel()
+		return nil, fmt.Errorf("no Acknowledge for the decoy: %v", err)
+	}
+	r := <-rc
+	cancel()
+	if r.e != nil {
+		cl.Close()
+		return nil, r.e
+	}
+	return func() { cl.Close(); r.c.Close() }, nil
 }
 
 func swapBuf(b uint32) uint32 {
@@ -205,6 +258,14 @@ func run(sc scenario) (trace []event, err error) {
 			return nil, fmt.Errorf("decoy pair: %w", err)
 		}
 		defer d.Close()
+	}
+
+	if sc.SDecoy {
+		closeDecoy, err := serverDecoy(p)
+		if err != nil {
+			return nil, fmt.Errorf("server decoy: %w", err)
+		}
+		defer closeDecoy()
 	}
 
 	// OpenSecureChannel is the first message pair on the connection
